@@ -24,7 +24,7 @@ META = dict(
         'range symbolic (one or two at a time); histories: data object '
         'used before by / shared with a second search object',
         thorough='as quick, plus all 7^3 matrices x {n_geos_max, share} '
-        'symbolic on P1 (both searches), panels P8 P3, every symbolic group '
+        'symbolic on P1 (both searches), panel P3, every symbolic group '
         'on every curated / seeded 4-geo table, 5-geo panel P10 with seeded '
         'tables, all-matrix shared-data histories'),
     outside='panels are a listed family of concrete panels (cells are not '
@@ -71,10 +71,10 @@ def jobs(tier, seed):
   out += _split_sym_jobs('P1', methods, [], tier, 'all343')
   rnd = random.Random(seed)
   mats = list(CURATED4) + [dict(zip('0123', (rnd.choice(RT) for _ in '0123')))
-                           for _ in range(6 if tier == 'quick' else 14)]
+                           for _ in range(6 if tier == 'quick' else 10)]
   syms = [['ngm'], ['tsize', 'csize'], ['share'], ['budget'], ['ngm',
                                                                'share']]
-  for panel in (['P2', 'P7'] if tier == 'quick' else ['P2', 'P7', 'P8', 'P3']):
+  for panel in (['P2', 'P7'] if tier == 'quick' else ['P2', 'P7', 'P3']):
     for i, el in enumerate(mats):
       for m in methods:
         for sym in (syms if tier == 'thorough' else [syms[(i + j) % len(syms)]
